@@ -23,20 +23,23 @@ theorem part_tick_same (w wa : Wiring) (A : Comp → Prop) (hp : IsPart w wa A)
     (s sa : TickSys Val) (h : s.Reachable w react t roots) (ha : sa.Reachable wa react t rootsA)
     (hf : s.tk.toUpdate = []) (hfa : sa.tk.toUpdate = []) (c : Comp) (hc : A c) :
     SameDispatch (dispatchOf s.trace c) (dispatchOf sa.trace c) := by
-  sorry
+  have _ := hacyc -- hypothesis not needed: the rank induction runs over `wa` only
+  exact hp.tick_same hw hwa hacyca hr hext hroots h ha hf hfa c hc
 
 /-- … and the tick of the whole does not stall because of the extra part: progress holds for
 the whole wiring as soon as it is acyclic (restated from C01 for the union). -/
 theorem whole_never_stalls (w : Wiring) (hacyc : w.Acyclic) (react : React Val) (t : SimTime)
     (roots : List Comp) (hroots : ∀ c ∈ extent w roots, (w.ups c).isSome)
     (s : TickSys Val) (hs : s.Reachable w react t roots) (hne : s.tk.toUpdate ≠ []) : s.pending ≠ [] := by
-  sorry
+  exact progress w hacyc react t roots hroots s hs hne
 
 /-- a component outside every extent rooted in `A` is never dispatched because of `A`:
-roots inside `A` never drag in anything outside `A`. -/
-theorem extent_stays_inside (w wa : Wiring) (A : Comp → Prop) (hp : IsPart w wa A)
+roots inside `A` never drag in anything outside `A`.  (`w.WF` — the wiring is a Python
+dict of dicts of sets — is needed: with a shadowed duplicate port key the tree would contain
+a child that is no wire, see `ce_isPart`/`ce_extent` in `Lemmas/PartLemmas.lean`.) -/
+theorem extent_stays_inside (w wa : Wiring) (A : Comp → Prop) (hp : IsPart w wa A) (hwf : w.WF)
     (rootsA : List Comp) (hA : ∀ r ∈ rootsA, A r) (c : Comp) (hc : c ∈ extent w rootsA) : A c := by
-  sorry
+  exact hp.extent_inside hwf hA hc
 
 /-- the hypothesis is satisfiable in general: the union of two well-formed wirings over
 disjoint component sets has each of them as a part (so `part_tick_same` applies to any
@@ -44,6 +47,6 @@ configuration extended by a disconnected device, chain or whole system simulatio
 theorem isPart_append (wa wb : Wiring) (hwa : wa.WF) (hwb : wb.WF)
     (hdisj : ∀ c, c ∈ wa.components → c ∉ wb.components) :
     IsPart (wa ++ wb) wa (fun c => c ∈ wa.components) := by
-  sorry
+  exact IsPart.append wa wb hwa hwb hdisj
 
 end Tickit
